@@ -324,6 +324,33 @@ def _check_path(sim, res, g, cls, sc, debug, choices, out, is_expr):
         _problem(res, 'marker-without-flag', g, cls, sc,
                  f'{len(manual)} debug markers emitted with the flag off',
                  debug)
+    if debug and manual and sim.is_subclass(cls, 'Block'):
+        # (block generators only: a statement generator runs inside the
+        # bracket gen_code_for_node puts around it)
+        # between the first start marker and the last end marker every real
+        # instruction lies inside some statement bracket: an instruction in
+        # a gap between two brackets belongs to no statement record
+        seq = list(instrs)
+        idx = [k for k, i in enumerate(seq)
+               if i[0] in ('_dbg_info_start', '_dbg_info_end')]
+        if idx:
+            depth = 0
+            for k in range(idx[0], idx[-1] + 1):
+                i = seq[k]
+                if i[0] == '_dbg_info_start':
+                    depth += 1
+                elif i[0] == '_dbg_info_end':
+                    depth -= 1
+                elif depth == 0 and not str(i[0]).startswith('_') and \
+                        i[0] != '$gen':
+                    _problem(res, 'marker-gap', g, cls, sc,
+                             f'the instruction {str(i[0])} is emitted '
+                             f'between two statement brackets of the block '
+                             f'(after an end marker, before the next start '
+                             f'marker): it is attributed to no statement, '
+                             f'so an error in it cannot be resumed and a '
+                             f'step stops nowhere', debug)
+                    break
     if debug and cls in ('IfBlock', 'SelectBlock'):
         want = []
         if cls == 'IfBlock':
@@ -610,6 +637,7 @@ def _detail_head(detail, kind=None):
                 'inconsistent-stack', 'arg-type', 'print-items',
                 'prompt-dependent-code', 'exit-target',
                 'comparison-common-type', 'restore-target-zero',
+                'marker-gap',
                 'valid-node-rejected', 'invalid-node-accepted'):
         return kind
     if kind == 'generator-raises':
